@@ -333,7 +333,8 @@ class Interp:
             if isinstance(o, ListObj):
                 if not o.items:
                     return FALSE
-                if any(i[0] == "v" and i[2] == TRUE for i in o.items):
+                if any(i[0] == "v" and i[2] == TRUE and not (isinstance(i[1], Op) and (i[1].op == "splat" or i[1].op.startswith("listmut:")))
+                       for i in o.items):
                     return TRUE
                 return Op("truthy", v)
             if isinstance(o, DictObj):
@@ -563,6 +564,9 @@ class Interp:
             return
         self.event("ext_attr_store", (obj, name, val), node)
 
+
+CONTAINER_MUTATORS = {"append", "extend", "insert", "sort", "reverse", "pop", "remove", "clear", "update", "setdefault", "popitem",
+                      "add", "discard"}
 
 BUILTIN_NAMES = {
     "len", "int", "str", "hex", "chr", "ord", "bytes", "bytearray", "memoryview", "list", "tuple",
@@ -1021,6 +1025,11 @@ class _CallMixin:
         return self.value_method(recv, name, args, kwargs, node)
 
     def value_method(self, recv, name, args, kwargs, node):
+        if name in CONTAINER_MUTATORS and isinstance(recv, Op) and recv.op in ("sorted", "list", "tuple_of", "reversed", "set", "dictget",
+                                                                             "m:copy", "m:split", "m:splitlines", "m:readlines"):
+            # the interpreter tracks container contents only for heap objects; losing this mutation would be unsound
+            raise AnalysisError("in-place %s() of a container value the analysis does not track (%r, line %s)" % (
+                name, recv, getattr(node, "lineno", "?")))
         if isinstance(recv, Const) and all(isinstance(a, Const) for a in args) and not kwargs \
                 and name in STR_METHODS and isinstance(recv.v, (str, bytes, int, tuple)) and name != "format":
             try:
@@ -1179,6 +1188,15 @@ class _CallMixin:
             return self.instantiate(f.info, args, kwargs, node)
         if isinstance(f, Ext):
             return self.call_ext(f.name, args, kwargs, node)
+        if isinstance(f, Op) and f.op == "methodcaller" and is_const(f.args[0], str) and args:
+            return self.call_method(args[0], f.args[0].v, list(f.args[1:]) + list(args[1:]), dict(kwargs), node)
+        if isinstance(f, Op) and f.op == "attrgetter" and len(f.args) == 1 and is_const(f.args[0], str) and len(args) == 1:
+            v = args[0]
+            for part in f.args[0].v.split("."):
+                v = self.get_attr(v, part, node)
+            return v
+        if isinstance(f, Op) and f.op == "itemgetter" and len(f.args) == 1 and len(args) == 1:
+            return self.getitem(args[0], f.args[0], node)
         if isinstance(f, Op) and f.op == "namedtuple":
             flds = f.args[1]
             names = None
@@ -2174,7 +2192,12 @@ class _ExtMixin:
                 # constant part + repeated parts
                 total = Const(0)
                 for it in o.items:
-                    if it[0] == "v" and it[2] == TRUE:
+                    if it[0] == "v" and isinstance(it[1], Op) and it[1].op == "splat":
+                        ln = Op("len", it[1].args[0])
+                        total = add(total, ln if it[2] == TRUE else ite(it[2], ln, Const(0)))
+                    elif it[0] == "v" and isinstance(it[1], Op) and it[1].op.startswith("listmut:"):
+                        return Op("len", v)
+                    elif it[0] == "v" and it[2] == TRUE:
                         total = add(total, Const(1))
                     elif it[0] == "rep":
                         L, g = it[1], it[3]
@@ -2283,7 +2306,8 @@ class _ExtMixin:
             except Exception:
                 pass
         self.event("sorted", (a[0], tuple(sorted(k.items()))), n)
-        return Op("sorted", a[0], *[Op("kv", Const(x), y) for x, y in sorted(k.items())])
+        res = Op("sorted", a[0], *[Op("kv", Const(x), y) for x, y in sorted(k.items())])
+        return self.alloc(ListObj(self.born_now(), [("v", Op("splat", res), TRUE)], "list"))
 
     def x_list(self, a, k, n):
         if not a:
@@ -2435,6 +2459,17 @@ class _ExtMixin:
     def x_all(self, a, k, n):
         q = self._quant(a, n, False)
         return Op("call:all", *a) if q is None else not_(q)
+
+    def x_operator_methodcaller(self, a, k, n):
+        if k:
+            return None
+        return Op("methodcaller", *a)
+
+    def x_operator_attrgetter(self, a, k, n):
+        return Op("attrgetter", *a)
+
+    def x_operator_itemgetter(self, a, k, n):
+        return Op("itemgetter", *a)
 
     def x_slice(self, a, k, n):
         if len(a) == 1:
